@@ -22,7 +22,6 @@ import (
 	"io/fs"
 	"os"
 	"path/filepath"
-	"runtime"
 	"sort"
 	"strings"
 	"sync"
@@ -534,11 +533,9 @@ func (w *watch) watch(fsw *fsnotify.Watcher, m *sync.Mutex, refresh func() error
 		return
 	}
 
-	eventMask := fsnotify.Rename | fsnotify.Remove | fsnotify.Write
-	// On macOS, we also need to watch for Create events.
-	if runtime.GOOS == "darwin" {
-		eventMask |= fsnotify.Create
-	}
+	// Create is needed on every OS: a Spec file moved or linked into a
+	// directory generates no other event.
+	eventMask := fsnotify.Rename | fsnotify.Remove | fsnotify.Write | fsnotify.Create
 
 	for {
 		select {
